@@ -330,6 +330,7 @@ def to_labels(obs):
             labels.append(['closeBegin'])
             closing_threads.add(th)
         elif kind == 'l.pop' and is_rx:
+            labels.append(['rxCleanPop'])
             rx.update(clean=True, removed=False, mode='clean')
         elif kind == 'd.pop' and is_rx:
             if rx['mode'] == 'clean':
